@@ -1,8 +1,12 @@
 (* Fuelled recursive-descent parser for the Lua subset of LuaAst.v.  Definitions only.
 
    Grammar and operator priorities are those of lparser.c (Lua 5.1) / lj_parse.c (LuaJIT):
-       or 1,1   and 2,2   < > <= >= ~= == 3,3   .. 5,4 (right)   + - 6,6   * / % 7,7
+       or 1,1   and 2,2   < > <= >= ~= == 3,3   .. 5,4 (right)   + - 6,6   * / // % 7,7
        unary (not # -) 8   ^ 10,9 (right)
+   (`//` exists in the Lua53 dialect only; its bitwise operators are not supported: the lexer
+   reports them.  In Lua 5.3 they sit between the comparison and `..`, so leaving them out does
+   not change any other priority relative to another.)
+   Dialect differences in the parser itself: Lua53 accepts empty statements `;`.
    The parser is deliberately *lenient* about two Lua 5.1 rules which LuaWf checks on the AST instead,
    so that it can name the reason: `return`/`break` must be the last statement of a block.
    Everything else that makes LuaJIT refuse a chunk syntactically is refused here too: reserved
@@ -45,7 +49,7 @@ Definition tok_text (t : token) : string :=
   match t with
   | TName s => s
   | TKw s => s
-  | TNum _ => "<number>"
+  | TNum _ _ => "<number>"
   | TStr _ => "<string>"
   | TOp s => s
   | TEof => "<eof>"
@@ -72,6 +76,7 @@ Definition binop_of (t : token) : option (binop * N * N) :=
       else if String.eqb o "-" then Some (OSub, 6, 6)%N
       else if String.eqb o "*" then Some (OMul, 7, 7)%N
       else if String.eqb o "/" then Some (ODiv, 7, 7)%N
+      else if String.eqb o "//" then Some (OIDiv, 7, 7)%N
       else if String.eqb o "%" then Some (OMod, 7, 7)%N
       else if String.eqb o "^" then Some (OPow, 10, 9)%N
       else if String.eqb o ".." then Some (OConcat, 5, 4)%N
@@ -114,90 +119,90 @@ Fixpoint all_vars (es : list expr) : bool :=
 
 Definition out_of_fuel {A : Type} (ts : toks) : presult A := PErr (line_of ts) "parser out of fuel".
 
-Fixpoint parse_subexpr (n : nat) (limit : N) (ts : toks) {struct n} : presult expr :=
+Fixpoint parse_subexpr (d : dialect) (n : nat) (limit : N) (ts : toks) {struct n} : presult expr :=
   match n with
   | O => out_of_fuel ts
   | S n =>
       match unop_of (peek ts) with
       | Some u =>
-          do* a, ts1 <- parse_subexpr n unary_priority (advance ts);
-          parse_binloop n limit (EUn u a) ts1
+          do* a, ts1 <- parse_subexpr d n unary_priority (advance ts);
+          parse_binloop d n limit (EUn u a) ts1
       | None =>
-          do* a, ts1 <- parse_simple n ts;
-          parse_binloop n limit a ts1
+          do* a, ts1 <- parse_simple d n ts;
+          parse_binloop d n limit a ts1
       end
   end
 
 (* lhs has been read; continue while the next operator binds tighter than `limit` *)
-with parse_binloop (n : nat) (limit : N) (lhs : expr) (ts : toks) {struct n} : presult expr :=
+with parse_binloop (d : dialect) (n : nat) (limit : N) (lhs : expr) (ts : toks) {struct n} : presult expr :=
   match n with
   | O => out_of_fuel ts
   | S n =>
       match binop_of (peek ts) with
       | Some (op, l, r) =>
           if (limit <? l)%N then
-            do* rhs, ts1 <- parse_subexpr n r (advance ts);
-            parse_binloop n limit (EBin op lhs rhs) ts1
+            do* rhs, ts1 <- parse_subexpr d n r (advance ts);
+            parse_binloop d n limit (EBin op lhs rhs) ts1
           else POk lhs ts
       | None => POk lhs ts
       end
   end
 
-with parse_simple (n : nat) (ts : toks) {struct n} : presult expr :=
+with parse_simple (d : dialect) (n : nat) (ts : toks) {struct n} : presult expr :=
   match n with
   | O => out_of_fuel ts
   | S n =>
       match peek ts with
-      | TNum q => POk (ENum q) (advance ts)
+      | TNum fl q => POk (ENum fl q) (advance ts)
       | TStr s => POk (EStr s) (advance ts)
       | _ =>
           if is_kw "nil" ts then POk ENil (advance ts)
           else if is_kw "true" ts then POk ETrue (advance ts)
           else if is_kw "false" ts then POk EFalse (advance ts)
           else if is_op "..." ts then PErr (line_of ts) "unsupported: varargs '...'"
-          else if is_op "{" ts then parse_table n ts
+          else if is_op "{" ts then parse_table d n ts
           else if is_kw "function" ts then
-            do* pb, ts1 <- parse_funcbody n (advance ts);
+            do* pb, ts1 <- parse_funcbody d n (advance ts);
             POk (EFunc (fst pb) (snd pb)) ts1
-          else parse_primary n ts
+          else parse_primary d n ts
       end
   end
 
 (* prefixexp { suffix } *)
-with parse_primary (n : nat) (ts : toks) {struct n} : presult expr :=
+with parse_primary (d : dialect) (n : nat) (ts : toks) {struct n} : presult expr :=
   match n with
   | O => out_of_fuel ts
   | S n =>
       match peek ts with
-      | TName x => parse_suffix n (EVar x) (advance ts)
+      | TName x => parse_suffix d n (EVar x) (advance ts)
       | _ =>
           if is_op "(" ts then
-            do* e, ts1 <- parse_subexpr n 0%N (advance ts);
+            do* e, ts1 <- parse_subexpr d n 0%N (advance ts);
             do* _u, ts2 <- expect_op ")" ts1;
-            parse_suffix n (EParen e) ts2
+            parse_suffix d n (EParen e) ts2
           else err_near "unexpected symbol" ts
       end
   end
 
-with parse_suffix (n : nat) (e : expr) (ts : toks) {struct n} : presult expr :=
+with parse_suffix (d : dialect) (n : nat) (e : expr) (ts : toks) {struct n} : presult expr :=
   match n with
   | O => out_of_fuel ts
   | S n =>
       if is_op "." ts then
         do* f, ts1 <- expect_name (advance ts);
-        parse_suffix n (EIndex e (EStr f)) ts1
+        parse_suffix d n (EIndex e (EStr f)) ts1
       else if is_op "[" ts then
-        do* k, ts1 <- parse_subexpr n 0%N (advance ts);
+        do* k, ts1 <- parse_subexpr d n 0%N (advance ts);
         do* _u, ts2 <- expect_op "]" ts1;
-        parse_suffix n (EIndex e k) ts2
+        parse_suffix d n (EIndex e k) ts2
       else if is_op ":" ts then PErr (line_of ts) "unsupported: method call syntax"
       else if is_op "(" ts || is_op "{" ts || match peek ts with TStr _ => true | _ => false end then
-        do* args, ts1 <- parse_args n ts;
-        parse_suffix n (ECall e args) ts1
+        do* args, ts1 <- parse_args d n ts;
+        parse_suffix d n (ECall e args) ts1
       else POk e ts
   end
 
-with parse_args (n : nat) (ts : toks) {struct n} : presult (list expr) :=
+with parse_args (d : dialect) (n : nat) (ts : toks) {struct n} : presult (list expr) :=
   match n with
   | O => out_of_fuel ts
   | S n =>
@@ -205,172 +210,173 @@ with parse_args (n : nat) (ts : toks) {struct n} : presult (list expr) :=
       | TStr s => POk [EStr s] (advance ts)
       | _ =>
           if is_op "{" ts then
-            do* t, ts1 <- parse_table n ts;
+            do* t, ts1 <- parse_table d n ts;
             POk [t] ts1
           else if is_op ")" (advance ts) then POk [] (advance (advance ts))
           else
-            do* es, ts1 <- parse_explist n (advance ts);
+            do* es, ts1 <- parse_explist d n (advance ts);
             do* _u, ts2 <- expect_op ")" ts1;
             POk es ts2
       end
   end
 
-with parse_explist (n : nat) (ts : toks) {struct n} : presult (list expr) :=
+with parse_explist (d : dialect) (n : nat) (ts : toks) {struct n} : presult (list expr) :=
   match n with
   | O => out_of_fuel ts
   | S n =>
-      do* e, ts1 <- parse_subexpr n 0%N ts;
+      do* e, ts1 <- parse_subexpr d n 0%N ts;
       if is_op "," ts1 then
-        do* es, ts2 <- parse_explist n (advance ts1);
+        do* es, ts2 <- parse_explist d n (advance ts1);
         POk (e :: es) ts2
       else POk [e] ts1
   end
 
 (* ts starts at '{' *)
-with parse_table (n : nat) (ts : toks) {struct n} : presult expr :=
+with parse_table (d : dialect) (n : nat) (ts : toks) {struct n} : presult expr :=
   match n with
   | O => out_of_fuel ts
-  | S n => parse_fields n (advance ts) []
+  | S n => parse_fields d n (advance ts) []
   end
 
-with parse_fields (n : nat) (ts : toks) (acc : list field) {struct n} : presult expr :=
+with parse_fields (d : dialect) (n : nat) (ts : toks) (acc : list field) {struct n} : presult expr :=
   match n with
   | O => out_of_fuel ts
   | S n =>
       if is_op "}" ts then POk (ETable (rev' acc)) (advance ts)
       else
-        do* f, ts1 <- parse_field n ts;
-        if is_op "," ts1 || is_op ";" ts1 then parse_fields n (advance ts1) (f :: acc)
+        do* f, ts1 <- parse_field d n ts;
+        if is_op "," ts1 || is_op ";" ts1 then parse_fields d n (advance ts1) (f :: acc)
         else if is_op "}" ts1 then POk (ETable (rev' (f :: acc))) (advance ts1)
         else err_near "'}' expected" ts1
   end
 
-with parse_field (n : nat) (ts : toks) {struct n} : presult field :=
+with parse_field (d : dialect) (n : nat) (ts : toks) {struct n} : presult field :=
   match n with
   | O => out_of_fuel ts
   | S n =>
       let positional :=
-        fun _ : unit => do* e, ts1 <- parse_subexpr n 0%N ts; POk (FPos e) ts1 in
+        fun _ : unit => do* e, ts1 <- parse_subexpr d n 0%N ts; POk (FPos e) ts1 in
       match peek ts with
       | TName x =>
           if is_op "=" (advance ts) then
-            do* v, ts1 <- parse_subexpr n 0%N (advance (advance ts));
+            do* v, ts1 <- parse_subexpr d n 0%N (advance (advance ts));
             POk (FKey (EStr x) v) ts1
           else positional tt
       | _ =>
           if is_op "[" ts then
-            do* k, ts1 <- parse_subexpr n 0%N (advance ts);
+            do* k, ts1 <- parse_subexpr d n 0%N (advance ts);
             do* _u, ts2 <- expect_op "]" ts1;
             do* _v, ts3 <- expect_op "=" ts2;
-            do* v, ts4 <- parse_subexpr n 0%N ts3;
+            do* v, ts4 <- parse_subexpr d n 0%N ts3;
             POk (FKey k v) ts4
           else positional tt
       end
   end
 
 (* '(' params ')' block 'end' *)
-with parse_funcbody (n : nat) (ts : toks) {struct n} : presult (list string * block) :=
+with parse_funcbody (d : dialect) (n : nat) (ts : toks) {struct n} : presult (list string * block) :=
   match n with
   | O => out_of_fuel ts
   | S n =>
       do* _u, ts1 <- expect_op "(" ts;
-      do* ps, ts2 <- (if is_op ")" ts1 then POk [] ts1 else parse_namelist n ts1);
+      do* ps, ts2 <- (if is_op ")" ts1 then POk [] ts1 else parse_namelist d n ts1);
       do* _v, ts3 <- expect_op ")" ts2;
-      do* b, ts4 <- parse_block n ts3 [];
+      do* b, ts4 <- parse_block d n ts3 [];
       do* _w, ts5 <- expect_kw "end" ts4;
       POk (ps, b) ts5
   end
 
-with parse_namelist (n : nat) (ts : toks) {struct n} : presult (list string) :=
+with parse_namelist (d : dialect) (n : nat) (ts : toks) {struct n} : presult (list string) :=
   match n with
   | O => out_of_fuel ts
   | S n =>
       if is_op "..." ts then PErr (line_of ts) "unsupported: varargs '...'" else
       do* x, ts1 <- expect_name ts;
       if is_op "," ts1 then
-        do* xs, ts2 <- parse_namelist n (advance ts1);
+        do* xs, ts2 <- parse_namelist d n (advance ts1);
         POk (x :: xs) ts2
       else POk [x] ts1
   end
 
 (* statements up to (not including) a block-ending token; acc is reversed *)
-with parse_block (n : nat) (ts : toks) (acc : list stmt) {struct n} : presult block :=
+with parse_block (d : dialect) (n : nat) (ts : toks) (acc : list stmt) {struct n} : presult block :=
   match n with
   | O => out_of_fuel ts
   | S n =>
       if block_end (peek ts) then POk (rev' acc) ts
+      else if is53 d && is_op ";" ts then parse_block d n (advance ts) acc     (* empty statement (5.2+) *)
       else
-        do* s, ts1 <- parse_stmt n ts;
-        parse_block n (if is_op ";" ts1 then advance ts1 else ts1) (s :: acc)
+        do* s, ts1 <- parse_stmt d n ts;
+        parse_block d n (if is_op ";" ts1 then advance ts1 else ts1) (s :: acc)
   end
 
-with parse_stmt (n : nat) (ts : toks) {struct n} : presult stmt :=
+with parse_stmt (d : dialect) (n : nat) (ts : toks) {struct n} : presult stmt :=
   match n with
   | O => out_of_fuel ts
   | S n =>
       let ts0 := advance ts in
       if is_kw "if" ts then
-        do* c, ts1 <- parse_subexpr n 0%N ts0;
+        do* c, ts1 <- parse_subexpr d n 0%N ts0;
         do* _u, ts2 <- expect_kw "then" ts1;
-        do* t, ts3 <- parse_block n ts2 [];
-        do* e, ts4 <- parse_if_tail n ts3;
+        do* t, ts3 <- parse_block d n ts2 [];
+        do* e, ts4 <- parse_if_tail d n ts3;
         POk (SIf c t e) ts4
       else if is_kw "while" ts then
-        do* c, ts1 <- parse_subexpr n 0%N ts0;
+        do* c, ts1 <- parse_subexpr d n 0%N ts0;
         do* _u, ts2 <- expect_kw "do" ts1;
-        do* b, ts3 <- parse_block n ts2 [];
+        do* b, ts3 <- parse_block d n ts2 [];
         do* _v, ts4 <- expect_kw "end" ts3;
         POk (SWhile c b) ts4
       else if is_kw "do" ts then
-        do* b, ts1 <- parse_block n ts0 [];
+        do* b, ts1 <- parse_block d n ts0 [];
         do* _u, ts2 <- expect_kw "end" ts1;
         POk (SDo b) ts2
       else if is_kw "for" ts then
         do* x, ts1 <- expect_name ts0;
         if is_op "=" ts1 then
-          do* lo, ts2 <- parse_subexpr n 0%N (advance ts1);
+          do* lo, ts2 <- parse_subexpr d n 0%N (advance ts1);
           do* _u, ts3 <- expect_op "," ts2;
-          do* hi, ts4 <- parse_subexpr n 0%N ts3;
+          do* hi, ts4 <- parse_subexpr d n 0%N ts3;
           do* st, ts5 <- (if is_op "," ts4
-                          then do* e, t5 <- parse_subexpr n 0%N (advance ts4); POk (Some e) t5
+                          then do* e, t5 <- parse_subexpr d n 0%N (advance ts4); POk (Some e) t5
                           else POk None ts4);
           do* _v, ts6 <- expect_kw "do" ts5;
-          do* b, ts7 <- parse_block n ts6 [];
+          do* b, ts7 <- parse_block d n ts6 [];
           do* _w, ts8 <- expect_kw "end" ts7;
           POk (SNumFor x lo hi st b) ts8
         else
-          do* xs, ts2 <- (if is_op "," ts1 then parse_namelist n (advance ts1) else POk [] ts1);
+          do* xs, ts2 <- (if is_op "," ts1 then parse_namelist d n (advance ts1) else POk [] ts1);
           do* _u, ts3 <- expect_kw "in" ts2;
-          do* es, ts4 <- parse_explist n ts3;
+          do* es, ts4 <- parse_explist d n ts3;
           do* _v, ts5 <- expect_kw "do" ts4;
-          do* b, ts6 <- parse_block n ts5 [];
+          do* b, ts6 <- parse_block d n ts5 [];
           do* _w, ts7 <- expect_kw "end" ts6;
           POk (SGenFor (x :: xs) es b) ts7
       else if is_kw "repeat" ts then
-        do* b, ts1 <- parse_block n ts0 [];
+        do* b, ts1 <- parse_block d n ts0 [];
         do* _u, ts2 <- expect_kw "until" ts1;
-        do* c, ts3 <- parse_subexpr n 0%N ts2;
+        do* c, ts3 <- parse_subexpr d n 0%N ts2;
         POk (SRepeat b c) ts3
       else if is_kw "function" ts then
         do* x, ts1 <- expect_name ts0;
-        do* target, ts2 <- parse_funcname n (EVar x) ts1;
-        do* pb, ts3 <- parse_funcbody n ts2;
+        do* target, ts2 <- parse_funcname d n (EVar x) ts1;
+        do* pb, ts3 <- parse_funcbody d n ts2;
         POk (SAssign [target] [EFunc (fst pb) (snd pb)]) ts3
       else if is_kw "local" ts then
         if is_kw "function" ts0 then
           do* x, ts1 <- expect_name (advance ts0);
-          do* pb, ts2 <- parse_funcbody n ts1;
+          do* pb, ts2 <- parse_funcbody d n ts1;
           POk (SLocalFun x (fst pb) (snd pb)) ts2
         else
-          do* xs, ts1 <- parse_namelist n ts0;
+          do* xs, ts1 <- parse_namelist d n ts0;
           if is_op "=" ts1 then
-            do* es, ts2 <- parse_explist n (advance ts1);
+            do* es, ts2 <- parse_explist d n (advance ts1);
             POk (SLocal xs es) ts2
           else POk (SLocal xs []) ts1
       else if is_kw "return" ts then
         if block_end (peek ts0) || is_op ";" ts0 then POk (SReturn []) ts0
         else
-          do* es, ts1 <- parse_explist n ts0;
+          do* es, ts1 <- parse_explist d n ts0;
           POk (SReturn es) ts1
       else if is_kw "break" ts then POk SBreak ts0
       else if is_kw "goto" ts then
@@ -382,11 +388,11 @@ with parse_stmt (n : nat) (ts : toks) {struct n} : presult stmt :=
         POk (SLabel l) ts2
       else
         (* assignment or call *)
-        do* e, ts1 <- parse_primary n ts;
+        do* e, ts1 <- parse_primary d n ts;
         if is_op "=" ts1 || is_op "," ts1 then
-          do* targets, ts2 <- parse_targets n ts1 [e];
+          do* targets, ts2 <- parse_targets d n ts1 [e];
           do* _u, ts3 <- expect_op "=" ts2;
-          do* es, ts4 <- parse_explist n ts3;
+          do* es, ts4 <- parse_explist d n ts3;
           if all_vars targets then POk (SAssign targets es) ts4
           else PErr (line_of ts) "syntax error: cannot assign to this expression"
         else
@@ -397,18 +403,18 @@ with parse_stmt (n : nat) (ts : toks) {struct n} : presult stmt :=
   end
 
 (* after the `then` block of an if: the else part as a block *)
-with parse_if_tail (n : nat) (ts : toks) {struct n} : presult block :=
+with parse_if_tail (d : dialect) (n : nat) (ts : toks) {struct n} : presult block :=
   match n with
   | O => out_of_fuel ts
   | S n =>
       if is_kw "elseif" ts then
-        do* c, ts1 <- parse_subexpr n 0%N (advance ts);
+        do* c, ts1 <- parse_subexpr d n 0%N (advance ts);
         do* _u, ts2 <- expect_kw "then" ts1;
-        do* t, ts3 <- parse_block n ts2 [];
-        do* e, ts4 <- parse_if_tail n ts3;
+        do* t, ts3 <- parse_block d n ts2 [];
+        do* e, ts4 <- parse_if_tail d n ts3;
         POk [SIf c t e] ts4
       else if is_kw "else" ts then
-        do* e, ts1 <- parse_block n (advance ts) [];
+        do* e, ts1 <- parse_block d n (advance ts) [];
         do* _u, ts2 <- expect_kw "end" ts1;
         POk e ts2
       else
@@ -417,25 +423,25 @@ with parse_if_tail (n : nat) (ts : toks) {struct n} : presult block :=
   end
 
 (* function a.b.c : the name part after the first name *)
-with parse_funcname (n : nat) (e : expr) (ts : toks) {struct n} : presult expr :=
+with parse_funcname (d : dialect) (n : nat) (e : expr) (ts : toks) {struct n} : presult expr :=
   match n with
   | O => out_of_fuel ts
   | S n =>
       if is_op "." ts then
         do* f, ts1 <- expect_name (advance ts);
-        parse_funcname n (EIndex e (EStr f)) ts1
+        parse_funcname d n (EIndex e (EStr f)) ts1
       else if is_op ":" ts then PErr (line_of ts) "unsupported: method definition syntax"
       else POk e ts
   end
 
 (* further assignment targets: { ',' primaryexp };  acc is reversed *)
-with parse_targets (n : nat) (ts : toks) (acc : list expr) {struct n} : presult (list expr) :=
+with parse_targets (d : dialect) (n : nat) (ts : toks) (acc : list expr) {struct n} : presult (list expr) :=
   match n with
   | O => out_of_fuel ts
   | S n =>
       if is_op "," ts then
-        do* e, ts1 <- parse_primary n (advance ts);
-        parse_targets n ts1 (e :: acc)
+        do* e, ts1 <- parse_primary d n (advance ts);
+        parse_targets d n ts1 (e :: acc)
       else POk (rev' acc) ts
   end.
 
@@ -443,8 +449,8 @@ Inductive parse_result :=
 | ParseOk (b : block)
 | ParseErr (line : N) (msg : string).
 
-Definition parse_tokens (ts : toks) : parse_result :=
-  match parse_block (10 * List.length ts + 100) ts [] with
+Definition parse_tokens (d : dialect) (ts : toks) : parse_result :=
+  match parse_block d (10 * List.length ts + 100) ts [] with
   | POk b rest =>
       match peek rest with
       | TEof => ParseOk b
@@ -453,11 +459,11 @@ Definition parse_tokens (ts : toks) : parse_result :=
   | PErr l m => ParseErr l m
   end.
 
-Definition parse_lua (src : string) : parse_result :=
-  match lex src with
-  | LexOk ts => parse_tokens ts
+Definition parse_lua (d : dialect) (src : string) : parse_result :=
+  match lex d src with
+  | LexOk ts => parse_tokens d ts
   | LexErr l m => ParseErr l m
   end.
 
-Definition parse_lua_opt (src : string) : option block :=
-  match parse_lua src with ParseOk b => Some b | ParseErr _ _ => None end.
+Definition parse_lua_opt (d : dialect) (src : string) : option block :=
+  match parse_lua d src with ParseOk b => Some b | ParseErr _ _ => None end.
